@@ -28,6 +28,10 @@ for c in range(1, 21):
         if cid == "C19":
             rn = 1 + off // 2
             demo_cmd = "demo placed in <repo>/tests/seeded%d_demo_%d.rs; cargo test --offline -p scale-info --features schema,serde,derive --test seeded%d_demo_%d" % (rn, n, rn, n)
+        special = {("_seeded4", "C02", 1): "--release", ("_seeded4", "C10", 2): "--release", ("_seeded4", "C09", 2): "--features info/docs",
+                   ("_seeded4", "C16", 1): "--features info/docs", ("_seeded4", "C15", 1): "--features info/bit-vec"}.get((rd, cid, n))
+        if special:
+            demo_cmd = "demo copied to test_suite/tests/seeded_demo_%d.rs; cargo test --offline -p scale-info-test-suite %s --test seeded_demo_%d (the flag is needed for the change to manifest: DEMO_FLAGS of selftest/validate_seed.sh)" % (n, special, n)
         meta = {
             "id": sid, "breaks_property": cid, "title": title,
             "needs_to_manifest": (m.group(1).strip()[:400] if m else "see notes.md"),
